@@ -176,8 +176,10 @@ func runCase(out *lib.Out, id, engine string, vals []*lib.Val, script string) {
 		switch {
 		case strings.HasPrefix(engine, "bind:"):
 			script = strings.ReplaceAll(script, " "+tag+lib.Hex("SAME:"), " "+tag+lib.Hex("tbind:"))
+			script = strings.ReplaceAll(script, " "+tag+lib.Hex("SAMER:"), " "+tag+lib.Hex("tbindr:"))
 		case strings.HasPrefix(engine, "gen:"):
 			script = strings.ReplaceAll(script, " "+tag+lib.Hex("SAME:"), " "+tag+lib.Hex("tgen:"))
+			script = strings.ReplaceAll(script, " "+tag+lib.Hex("SAMER:"), " "+tag+lib.Hex("tgenr:"))
 		}
 	}
 	out.Case(id, "c12", engine, strings.Join(vs, ";"), script, observe(engine, script))
@@ -454,6 +456,9 @@ func (g *injGen) shape(spec string, v *lib.Val, root bool) []*lib.Op {
 	}
 	if g.r.Chance(p / 2) { // ... or of the same engine and type
 		return append(ops, &lib.Op{Code: "XN", N: &lib.NSpec{Tag: 'T', Eng: g.engName(), Ty: shapeTy(spec).Text(), V: v}})
+	}
+	if g.r.Chance(p / 2) { // ... or the representation VIEW of one: not the assembler's own type, ranged over
+		return append(ops, &lib.Op{Code: "XN", N: &lib.NSpec{Tag: 'T', Eng: g.engName() + "R", Ty: shapeTy(spec).Text(), V: v}})
 	}
 	switch spec[0] {
 	case 'M':
